@@ -481,6 +481,14 @@ func (v *Verifier) oblige(s *State, class, label string, goal *Term, p token.Pos
 		v.obligeHook(s, goal)
 		return
 	}
+	// A ==> (byte-string / array equality ...): assume A and prove the consequent, so that
+	// the equality gets the pointwise treatment below
+	if goal.Op == "=>" && len(goal.Args) == 2 && class != "vacuity" && hasExtEq(goal.Args[1]) {
+		ns := s.clone()
+		ns.assume(goal.Args[0])
+		v.oblige(ns, class, label, goal.Args[1], p, desc)
+		return
+	}
 	// an equality of byte strings is proved as equal length and pointwise equal contents
 	if goal.Op == "=" && len(goal.Args) == 2 && (goal.Args[0].Sort == "BStr" || goal.Args[0].Sort == "BStrB") && class != "vacuity" {
 		srt := goal.Args[0].Sort
@@ -1360,4 +1368,23 @@ func skolemise(t *Term) *Term {
 		m[b.String()] = Const(fmt.Sprintf("sk!%d", n), b.Sort)
 	}
 	return t.Args[0].Subst(m)
+}
+
+// hasExtEq: the term is (a conjunction containing, or an implication ending in) an
+// equality of byte strings or arrays.
+func hasExtEq(t *Term) bool {
+	switch {
+	case t.Op == "=" && len(t.Args) == 2:
+		so := t.Args[0].Sort
+		return so == "BStr" || so == "BStrB" || strings.HasPrefix(so, "(Array Int ")
+	case t.Op == "and" && !t.IsLit:
+		for _, a := range t.Args {
+			if hasExtEq(a) {
+				return true
+			}
+		}
+	case t.Op == "=>" && len(t.Args) == 2:
+		return hasExtEq(t.Args[1])
+	}
+	return false
 }
